@@ -27,6 +27,11 @@ pub struct TraceEv {
     pub size: usize,
     pub file: &'static str,
     pub line: u32,
+    /// length of the allocator's free log when the event happened: blocks with a smaller log
+    /// index were freed before this event
+    pub qlen: usize,
+    /// for `Retire` of a value: the instance id of the `V` behind the pointer
+    pub inst: u64,
 }
 
 #[derive(Clone, Copy, Debug, PartialEq, Eq)]
@@ -154,6 +159,13 @@ fn mk_ev(tid: usize, e: &Event) -> TraceEv {
         size: e.size,
         file: e.loc.file(),
         line: e.loc.line(),
+        qlen: crate::qalloc::log_len(),
+        inst: if e.kind == Kind::Retire && e.what.ends_with("types::V") && e.addr != 0 {
+            // safety: the pointer is being retired, not yet freed
+            unsafe { (**(e.addr as *const seize::Linked<crate::types::V>)).inst }
+        } else {
+            0
+        },
     }
 }
 
@@ -177,15 +189,26 @@ impl Sched {
     }
 
     fn record_only(&self, tid: usize, e: &Event) {
+        if e.kind == Kind::Retire {
+            if let Some(msg) = crate::life::check_retire_reachable(e.addr, e.what) {
+                self.note(format!("[retire-reachable] {} at {}:{}", msg, e.loc.file(), e.loc.line()));
+            }
+        }
         let mut g = self.inner.lock().unwrap();
         if g.record_nonyield || is_yield(e.kind) {
             let ev = mk_ev(tid, e);
             g.trace.push(ev);
+            crate::types::TRACE_POS.store(g.trace.len() as u64, Ordering::Relaxed);
         }
     }
 
     fn on_event(&self, tid: usize, e: &Event) {
         if !is_yield(e.kind) {
+            if e.kind == Kind::Retire {
+                if let Some(msg) = crate::life::check_retire_reachable(e.addr, e.what) {
+                    self.note(format!("[retire-reachable] {} at {}:{}", msg, e.loc.file(), e.loc.line()));
+                }
+            }
             let mut g = self.inner.lock().unwrap();
             if e.kind == Kind::Unlock {
                 g.write_epoch += 1;
@@ -193,6 +216,7 @@ impl Sched {
             if g.record_nonyield {
                 let ev = mk_ev(tid, e);
                 g.trace.push(ev);
+                crate::types::TRACE_POS.store(g.trace.len() as u64, Ordering::Relaxed);
             }
             return;
         }
@@ -230,6 +254,7 @@ impl Sched {
             _ => {}
         }
         let ev = mk_ev(tid, e);
+        crate::types::TRACE_POS.store(g.trace.len() as u64 + 1, Ordering::Relaxed);
         if matches!(ev.kind, Kind::Store | Kind::Swap | Kind::FetchAdd) || (ev.kind == Kind::Cas && ev.ok) || ev.kind == Kind::Yield {
             g.write_epoch += 1;
         }
